@@ -309,7 +309,7 @@ func scalarReflectFromGo(schema *schema_j5pb.Field, value interface{}) (protoref
 		switch st.Float.Format {
 
 		case schema_j5pb.FloatField_FORMAT_FLOAT32:
-			if val > math.MaxFloat32 || val < -math.MaxFloat32 {
+			if !math.IsInf(val, 0) && (val > math.MaxFloat32 || val < -math.MaxFloat32) {
 				return pv, fmt.Errorf("float64 value %v is out of range for float32", val)
 			}
 
